@@ -26,6 +26,7 @@ import vlib
 import c01
 
 LEVEL = "model_checking"
+CLAIMED = True   # set by the lead after review; only claimed checks enter MANIFEST.json
 
 MANIFEST = dict(
     category="model_checking",
@@ -158,8 +159,9 @@ def build_family(ds):
     ids("t_eq_foo", "t=foo", ref_streq("t", "foo"))
     ids("t_eq_Foo_bar", 't="Foo bar"', ref_streq("t", "Foo bar"))
     ids("t_eq_bar_upper", "t=BAR", ref_streq("t", "BAR"))
-    ids("t_wild_bar", "t=*bar*", ref_wild("t", "*bar*"))
-    ids("t_wild_prefix", "t=fo*", ref_wild("t", "fo*"))
+    tkey = "wildcard_filter_over_column_missing_in_some_events" if lacks("t") else None
+    ids("t_wild_bar", "t=*bar*", ref_wild("t", "*bar*"), key=tkey)
+    ids("t_wild_prefix", "t=fo*", ref_wild("t", "fo*"), key=tkey)
     ids("c_wild", "c=c0000*", ref_wild("c", "c0000*"))
     ids("word_foo", "foo", ref_word("foo"))
     ids("word_Foo", "Foo", ref_word("Foo"))
@@ -168,7 +170,8 @@ def build_family(ds):
     ids("or_x_g", "x=1 OR g=a", lambda e: ref_cmp("x", "=", 1)(e) or ref_streq("g", "a")(e),
         key="or_filter_over_column_missing_in_some_events" if lacks("x") else None)
     ids("or_k_g", "k=3 OR g=a", lambda e: ref_cmp("k", "=", 3)(e) or ref_streq("g", "a")(e))
-    ids("and_x_t", "x>-1 AND t=*foo*", lambda e: ref_cmp("x", ">", -1)(e) and ref_wild("t", "*foo*")(e))
+    ids("and_x_t", "x>-1 AND t=*foo*", lambda e: ref_cmp("x", ">", -1)(e) and ref_wild("t", "*foo*")(e), key=tkey)
+    ids("and_k_c", "k>2 AND c=c000*", lambda e: ref_cmp("k", ">", 2)(e) and ref_wild("c", "c000*")(e))
     ids("not_g", "NOT g=a", ref_streq("g", "a", neg=True))
     # presence queries: every value / word present must be found (PruneSound on the real micro indexes)
     for v in sorted({e["x"] for e in ds.all if "x" in e}):
@@ -192,6 +195,8 @@ def build_family(ds):
         if nums:
             ids("mx_eq_num", "mx=%d" % nums[-1]["mx"], None, promote=False)      # pairwise only
         ids("mx_any", "mx=*", None, promote=False)
+    def lacks(col):
+        return any(col not in e for e in ds.all)
     full_x = all("x" in e for e in ds.all)
     Q.append({"name": "stats_count", "text": "* | stats count", "kind": "stats", "ref": "count", "promote": False})
     Q.append({"name": "stats_by_g", "text": "* | stats count, sum(k), min(k), max(k), avg(k) by g", "kind": "stats", "ref": "by_g_k", "promote": False})
@@ -199,7 +204,9 @@ def build_family(ds):
               "ref": "by_g_x" if full_x else None, "promote": False,
               "key": "stats_x_by_g" if full_x else "stats_by_group_over_column_missing_in_some_events"})
     Q.append({"name": "stats_filtered", "text": "k>2 | stats count, sum(k) by g", "kind": "stats", "ref": "filtered", "promote": False})
-    Q.append({"name": "stats_by_t", "text": "* | stats count by t", "kind": "stats", "ref": None, "promote": False})
+    Q.append({"name": "stats_by_t", "text": "* | stats count by t", "kind": "stats", "ref": None, "promote": False,
+              "key": "stats_by_group_over_column_missing_in_some_events" if lacks("t") else "stats_by_t"})
+    Q.append({"name": "stats_by_c_prefix", "text": "k>2 | stats count by g, k", "kind": "stats", "ref": None, "promote": False})
     if ds.mixed:
         Q.append({"name": "stats_by_mx", "text": "* | stats count by mx", "kind": "stats", "ref": None, "promote": False})
     Q.append({"name": "head_3", "text": "* | head 3", "kind": "order", "ref": "head3", "promote": False})
@@ -236,7 +243,7 @@ def canon(q, resp, size_hint):
     if "qerr" in resp:
         return ("error", resp["qerr"][:200])
     if resp.get("hang"):
-        return ("hang",)
+        raise vlib.Infra("query did not finish within the driver's timeout (machine load?)")
     if q["kind"] == "stats":
         out = {}
         for m in resp.get("measure") or []:
@@ -366,8 +373,8 @@ def run_layout(binary, ds, fam, lay):
                 if a2 != answers[q["name"]]:
                     answers[q["name"] + "#repeat"] = a2
     except vlib.DriverDead as e:
-        if e.kind == "hang":
-            raise vlib.Infra("engine did not answer in time (machine load?): %s" % e)
+        if e.kind == "hang" or c01.killed_from_outside(e):
+            raise vlib.Infra("engine did not answer in time / was killed from outside (machine load?): %s" % e)
         died = (cur, str(e))
     finally:
         if ses is not None:
